@@ -10,15 +10,15 @@ ROOT = os.path.dirname(os.path.dirname(os.path.abspath(__file__)))
 # id -> (category, technique, text, note, design_ref)
 CHECKS = {
  "C01": ("exploration", "differential execution of replicas (real ABCI mux) + Go race detector",
-   "Generated block histories are executed on a reference replica and 3-4 test replicas that take PRNG-assigned execution paths (proposer with cached results, validator, plain replay, round change, restart from disk, crash mid-block) on both node-database backends with pruning, while CheckTx, EstimateGas and historical queries run concurrently under the race detector; AppHash, per-transaction code/codespace/data and validator updates must be byte-identical to the reference at every height, honest proposals must be accepted, and any race report fails the check. Held on the histories and interleavings that were executed, nothing more.",
+   "Generated block histories are executed on a reference replica and 3-4 test replicas that take PRNG-assigned execution paths (proposer with cached results, validator, plain replay, round change, restart from disk, crash mid-block) on both node-database backends with pruning, while CheckTx, EstimateGas and historical queries run concurrently under the race detector; AppHash, per-transaction code/codespace/data and validator updates must be byte-identical to the reference at every height, honest proposals must be accepted, and any race report fails the check. Held on the histories and interleavings that were executed, nothing more. Scenario profiles include key manager traffic and an 'evidence' profile (consensus evidence in every third block with infraction heights up to 14 blocks back, pruning replicas keeping two versions against an archive reference).",
    "Trusted: the harness's block driver reproduces CometBFT's ABCI call discipline (one serialised ABCI connection, free-running queries/simulation/pruner); divergence needing another binary/OS/architecture is out of reach.",
    "DESIGN.md 4/C01"),
  "C02": ("exploration", "multi-route differential + independent reference hasher",
-   "For every generated content set the MKVS root is computed along many independent routes (insertion orders, histories with overwrites/removals/re-inserts, commit batching, cache capacities, backends, reopen, write-log replay) and must equal an independent reference hasher's canonical-trie root; neighbouring content sets must give different roots. A fault-retry route makes operations fail once (GetNode failing once, contexts cancelled after i checks): a failed operation must leave the contents unchanged and the retried history must still reach the reference root.",
+   "For every generated content set the MKVS root is computed along many independent routes (insertion orders, histories with overwrites/removals/re-inserts, commit batching, cache capacities, backends, reopen, write-log replay) and must equal an independent reference hasher's canonical-trie root; neighbouring content sets must give different roots. A fault-retry route makes operations fail once (GetNode failing once, contexts cancelled after i checks): a failed operation must leave the contents unchanged and the retried history must still reach the reference root. Finalizing database routes also replay the write logs the node database serves (GetWriteLog) for consecutive finalized roots.",
    "Trusted: the reference hasher is written from the hash definitions in node.go only; SHA-512/256 collision resistance.",
    "DESIGN.md 4/C02"),
  "C03": ("exploration", "online reference-model monitor (ordered map)",
-   "Random operation histories (insert, remove, get, iterate/seek, nested overlays with commit/discard/copy, tree commit, close/reopen) are executed against the real tree under several cache capacities, backends and write-log settings; every returned value and every iteration is compared with a reference ordered map. About a quarter of the operations are first attempted under an injected fault (failing GetNode, cancelled context) and must then leave the map unchanged.",
+   "Random operation histories (insert, remove, get, iterate/seek, nested overlays with commit/discard/copy, tree commit, close/reopen) are executed against the real tree under several cache capacities, backends and write-log settings; every returned value and every iteration is compared with a reference ordered map. About a quarter of the operations are first attempted under an injected fault (failing GetNode, cancelled context) and must then leave the map unchanged. The api.Context mechanism is driven in all six context modes, with transactions opened on NewChild / WithSimulation / WithCallerAddress children.",
    "Trusted: the reference map (Go map + sort).",
    "DESIGN.md 4/C03"),
  "C04": ("exploration", "evil-peer fault injection + model oracle over answers",
@@ -38,7 +38,7 @@ CHECKS = {
    "Fault model: process death (page cache survives, as the consensus layer's NoFsync relies on); enumeration is complete w.r.t. the hook points, instants inside a badger flush are only sampled.",
    "DESIGN.md 4/C07"),
  "C08": ("exploration", "per-transaction state-diff monitor (H1 taps) + twin-replica differential",
-   "The full proposal state is dumped before and after every delivered transaction of generated histories; a failing transaction's diff must be empty or exactly nonce+1/balance-fee of the authenticated signer (decided by an independent authentication model cross-checked with the error code); twin replicas executing a block with and without a failing transaction must commit states differing only in that nonce; CheckTx/EstimateGas bursts must leave the committed state unchanged.",
+   "The full proposal state is dumped before and after every delivered transaction of generated histories; a failing transaction's diff must be empty or exactly nonce+1/balance-fee of the authenticated signer (decided by an independent authentication model cross-checked with the error code); twin replicas executing a block with and without a failing transaction must commit states differing only in that nonce; CheckTx/EstimateGas bursts must leave the committed state unchanged. Gas pre-sweeps: the first execution of a transaction (preferably a vault action) runs under every gas limit at which a charge can run out, taken from the genesis gas costs and their nested sums; key manager (secrets and CHURP) transactions reach their success and failure paths on a test key manager runtime.",
    "Trusted: the authentication model (signature, nonce, balance, reserved address); key-manager methods only to validation depth.",
    "DESIGN.md 4/C08"),
  "C09": ("exploration", "history monitor with independent signature verifier and forger",
@@ -46,7 +46,7 @@ CHECKS = {
    "Trusted: independent sha512/256 + ed25519 verification in the harness.",
    "DESIGN.md 4/C09"),
  "C10": ("exploration", "panic/reject monitor over hostile block histories",
-   "Every generated history (including a hostile profile: extreme amounts, all validators absent, evidence against unknown/frozen validators, slashing to zero, proposals closing with debonding and rewards on one epoch boundary) must complete BeginBlock/DeliverTx/EndBlock/Commit without panic, empty proposal or rejected honest proposal; the documented stake precondition (no stake-eligible validators / zero total voting stake) ends a history without verdict. Histories include runtime scenarios (round timers, suspensions, liveness evaluation), vault traffic and node role / entity changes.",
+   "Every generated history (including a hostile profile: extreme amounts, all validators absent, evidence against unknown/frozen validators, slashing to zero, proposals closing with debonding and rewards on one epoch boundary) must complete BeginBlock/DeliverTx/EndBlock/Commit without panic, empty proposal or rejected honest proposal; the documented stake precondition (no stake-eligible validators / zero total voting stake) ends a history without verdict. Histories include runtime scenarios (round timers, suspensions, liveness evaluation), vault traffic and node role / entity changes. Governance storms (two proposals per block, every entity voting on every active proposal) and key manager traffic are part of the histories.",
    "Trusted: LastCommitInfo always lists exactly the current validator set as CometBFT guarantees.",
    "DESIGN.md 4/C10"),
  "C11": ("exploration", "exhaustive small-scope enumeration against an event-log checker and a reference decision function",
@@ -54,11 +54,11 @@ CHECKS = {
    "Exhaustive only inside the stated scope; the app level is sampled.",
    "DESIGN.md 4/C11"),
  "C12": ("exploration", "round-trip differential + chunk fault enumeration + race detector",
-   "Checkpoints of generated trees are created twice (metadata must be identical) and restored into empty databases of both backends in PRNG orders with duplicates, concurrent callers and abort/restart; the restored root and contents must equal the source; every corrupted chunk must be rejected with nothing of it visible. Gated readers keep chunks in flight while others complete and the harness finalizes on the first done=true; checkpoints are re-created over the leftovers of interrupted creations; a stalled concurrent restore is decided from goroutine dumps (deadlock) instead of a timeout.",
+   "Checkpoints of generated trees are created twice (metadata must be identical) and restored into empty databases of both backends in PRNG orders with duplicates, concurrent callers and abort/restart; the restored root and contents must equal the source; every corrupted chunk must be rejected with nothing of it visible. Gated readers keep chunks in flight while others complete and the harness finalizes on the first done=true; checkpoints are re-created over the leftovers of interrupted creations; a stalled concurrent restore is decided from goroutine dumps (deadlock) instead of a timeout. Fallback cases: an aborted restore of a newer checkpoint, a restore of an older one, forward sync with write logs through the aborted version, every finalized version read back. Abort-while-in-flight cases: a RestoreChunk call blocked in Read across AbortRestore (and the start of another checkpoint's restore) must never be counted for a restore it does not belong to.",
    "Trusted: the reference map.",
    "DESIGN.md 4/C12"),
  "C13": ("exploration", "write-log round trip + corruption enumeration",
-   "For consecutive finalized roots the write log served by the database, applied at the first root, must produce the second; LocalBackend.Apply must persist only logs that hash to the expected root (corrupted logs fail unless semantically neutral per the model) and must not leave the root visible after a failure. Commits refused by the node database (six reasons) followed by further updates and a successful commit of the same tree are part of a third of the batches; the log returned by Commit is judged like the served one.",
+   "For consecutive finalized roots the write log served by the database, applied at the first root, must produce the second; LocalBackend.Apply must persist only logs that hash to the expected root (corrupted logs fail unless semantically neutral per the model) and must not leave the root visible after a failure. Commits refused by the node database (six reasons) followed by further updates and a successful commit of the same tree are part of a third of the batches; the log returned by Commit is judged like the served one. Evicting-leader cases: a leader tree with a small value cache (prefix-free keys) rewrites unchanged values and reads other leaves before committing; the stored and the returned log must still describe the transition.",
    "Trusted: the reference map deciding semantic neutrality.",
    "DESIGN.md 4/C13"),
  "C14": ("exploration", "recomputed-eligibility monitor at election taps (H2)",
@@ -74,7 +74,7 @@ CHECKS = {
    "Absence of findings over the sampled inputs only.",
    "DESIGN.md 4/C16"),
  "C17": ("exploration", "index/claims recomputation + authority monitor over state diffs",
-   "After every block of registry-heavy histories (registrations, key rotation/swap, expiry, deregistration) every node must resolve under each current key, keys are unique, indexes equal what primary records imply, stake claims equal the registered objects, and records change only in transactions signed with the right authority. The descriptor of an entity-governed runtime may only change in a transaction of that entity (also while suspended).",
+   "After every block of registry-heavy histories (registrations, key rotation/swap, expiry, deregistration) every node must resolve under each current key, keys are unique, indexes equal what primary records imply, stake claims equal the registered objects, and records change only in transactions signed with the right authority. The descriptor of an entity-governed runtime may only change in a transaction of that entity (also while suspended). Histories with a key manager: one CHURP stake claim per stored CHURP instance is expected on the owner's account.",
    "Trusted: typed registry/staking state readers.",
    "DESIGN.md 4/C17"),
  "C18": ("fault_enumeration", "mutation enumeration of attestation vectors with acceptance oracle",
@@ -82,7 +82,7 @@ CHECKS = {
    "Only the vectors in the repository; crypto of the Go standard library trusted.",
    "DESIGN.md 4/C18"),
  "C19": ("fault_enumeration", "field/byte-level alteration of provider responses with normal-form oracle",
-   "Every field and byte of recorded provider responses (block, results, validators, parameters, transactions, proofs) is altered; an accepted response must have the same header-bound normal form as the original; inclusion proofs verify only for their own transaction and block. Multi-height histories run against one long-lived Core with responses of other heights relabelled, so stale caches show; times are compared exactly (sub-second alterations).",
+   "Every field and byte of recorded provider responses (block, results, validators, parameters, transactions, proofs) is altered; an accepted response must have the same header-bound normal form as the original; inclusion proofs verify only for their own transaction and block. Multi-height histories run against one long-lived Core with responses of other heights relabelled, so stale caches show; times are compared exactly (sub-second alterations). Whole CBOR items of every provider blob are replaced by null / empty containers (nil pointers and nil slice entries on the Go side); Core.GetTransactionsWithResults is called with transactions of another height and, for the latest height, against an honest per-height provider whose tip moves between the calls of one request.",
    "Events in block results are excluded (code TODO #6210).",
    "DESIGN.md 4/C19"),
  "C20": ("exploration", "online reference-model monitor of the scheduler and of the mutex-guarded main queue (H4 exports) + race detector on concurrent callers",
